@@ -662,28 +662,34 @@ class Interp:
                 return self.sym_format_percent(l, r)
         if isinstance(e, ast.Lambda):
             return Closure(e, dict(env), None, cls)
-        if isinstance(e, (ast.GeneratorExp, ast.ListComp)) and len(e.generators) == 1:
-            g = e.generators[0]
-            out = []
-            env2 = dict(env)
-            for v in self.seq(self.ev(g.iter, env, cls)):
-                self.assign(g.target, v, env2, cls)
-                if all(self.truth(self.ev(c, env2, cls)) for c in g.ifs):
-                    out.append(self.ev(e.elt, env2, cls))
-            return out if isinstance(e, ast.GeneratorExp) else h.new_list(out)
-        if isinstance(e, (ast.DictComp, ast.SetComp)) and len(e.generators) == 1:
-            g = e.generators[0]
-            env2 = dict(env)
-            out_d = h.new_dict() if isinstance(e, ast.DictComp) else None
-            out_s = []
-            for v in self.seq(self.ev(g.iter, env, cls)):
-                self.assign(g.target, v, env2, cls)
-                if all(self.truth(self.ev(c, env2, cls)) for c in g.ifs):
+        if isinstance(e, (ast.GeneratorExp, ast.ListComp, ast.DictComp, ast.SetComp)) and not any(g.is_async for g in e.generators):
+            # comprehensions with any number of `for` clauses and conditions: the clauses nest from left to right
+            results = []
+
+            def clauses(k, env2):
+                if k == len(e.generators):
                     if isinstance(e, ast.DictComp):
-                        h.dict_set(out_d, self.ev(e.key, env2, cls), self.ev(e.value, env2, cls))
+                        results.append((self.ev(e.key, env2, cls), self.ev(e.value, env2, cls)))
                     else:
-                        out_s.append(self.ev(e.elt, env2, cls))
-            return out_d if isinstance(e, ast.DictComp) else set(out_s)
+                        results.append(self.ev(e.elt, env2, cls))
+                    return
+                g = e.generators[k]
+                for v in self.seq(self.ev(g.iter, env2 if k else env, cls)):
+                    env3 = dict(env2)
+                    self.assign(g.target, v, env3, cls)
+                    if all(self.truth(self.ev(c, env3, cls)) for c in g.ifs):
+                        clauses(k + 1, env3)
+            clauses(0, dict(env))
+            if isinstance(e, ast.GeneratorExp):
+                return results
+            if isinstance(e, ast.ListComp):
+                return h.new_list(results)
+            if isinstance(e, ast.DictComp):
+                out_d = h.new_dict()
+                for k_, v_ in results:
+                    h.dict_set(out_d, k_, v_)
+                return out_d
+            return set(results)
         if isinstance(e, ast.Subscript):
             base = self.ev(e.value, env, cls)
             key = self.ev(e.slice, env, cls)
